@@ -114,6 +114,59 @@ func CapGapWitness() Spec {
 	return spec
 }
 
+// GenDrfStage: drf votes for preemption in the deciding tier and several victims belong to one job.  Victim job 1 runs k
+// equal pods on node n1 (nearly full), preemptor job 2 (same queue, higher priority) has a pending pod that needs 1..3 of
+// them; a bystander job fills other nodes so that the cluster total, and with it every dominant share, varies.  drf lets
+// a pod of job 1 go only while job 2's share (with the preemptor) stays at or below what is LEFT of job 1.
+func GenDrfStage(r *vh.Rng) Spec {
+	spec := newSpec()
+	k := int64(r.Range(2, 5))
+	c := int64(r.Range(1, 4)) * 500
+	m := int64(r.Range(1, 3)) << 20
+	need := int64(r.Range(1, 3))
+	if need > k {
+		need = k
+	}
+	spec.Nodes = []sched.NodeSpec{{ID: 1, Has: true, CPU: k*c + vh.Pick(r, []int64{0, 0, 250, 500}), Mem: k*m + (1 << 20), Pods: k + 3}}
+	extra := int64(r.Range(0, 2))
+	for i := int64(0); i < extra; i++ {
+		spec.Nodes = append(spec.Nodes, sched.NodeSpec{ID: 2 + i, Has: true, CPU: int64(r.Range(1, 6)) * 1000, Mem: int64(r.Range(2, 8)) << 20, Pods: 4})
+	}
+	spec.Queues = []sched.QueueSpec{{ID: 1, Open: true, Weight: 1}}
+	tid := int64(0)
+	spec.Jobs = append(spec.Jobs, sched.JobSpec{ID: 1, Queue: 1, Min: vh.Pick(r, []int64{0, 0, 1})})
+	spec.PGPhase[1] = 3
+	for i := int64(0); i < k; i++ {
+		tid++
+		spec.Tasks = append(spec.Tasks, sched.TaskSpec{ID: tid, Job: 1, Role: 1, Prio: int64(r.Range(0, 1)), CPU: c, Mem: m, Status: sched.SRunning, Node: 1, Preemptable: true})
+	}
+	spec.Jobs = append(spec.Jobs, sched.JobSpec{ID: 2, Queue: 1, Min: 1})
+	spec.PGPhase[2] = 3
+	spec.JPrio[2] = 2
+	// job 2 may already hold something (its share then starts higher)
+	if r.Chance(1, 3) && extra > 0 {
+		tid++
+		spec.Tasks = append(spec.Tasks, sched.TaskSpec{ID: tid, Job: 2, Role: 1, Prio: 1, CPU: 500, Mem: 1 << 19, Status: sched.SRunning, Node: 2, Preemptable: false})
+	}
+	tid++
+	spec.Tasks = append(spec.Tasks, sched.TaskSpec{ID: tid, Job: 2, Role: 1, Prio: 1, CPU: need*c - vh.Pick(r, []int64{0, 0, 250}), Mem: vh.Pick(r, []int64{m, need * m, 0}), Status: sched.SPending, Preemptable: true})
+	// a second victim job on the same node sometimes
+	if r.Chance(1, 3) {
+		spec.Jobs = append(spec.Jobs, sched.JobSpec{ID: 3, Queue: 1, Min: 0})
+		spec.PGPhase[3] = 3
+		spec.Nodes[0].CPU += c
+		spec.Nodes[0].Mem += m
+		tid++
+		spec.Tasks = append(spec.Tasks, sched.TaskSpec{ID: tid, Job: 3, Role: 1, CPU: c, Mem: m, Status: sched.SRunning, Node: 1, Preemptable: true})
+	}
+	spec.Tiers = [][]Plug{{{Kind: KGang, Pre: true, Rec: true}, {Kind: KDrf, Pre: true, Rec: true}}}
+	if r.Chance(1, 3) {
+		spec.Tiers[0] = append(spec.Tiers[0], Plug{Kind: KPrio, Pre: true, Rec: true})
+	}
+	spec.Actions = vh.Pick(r, [][]int64{{1}, {1}, {3}})
+	return spec
+}
+
 func GenSpec(r *vh.Rng) Spec {
 	spec := newSpec()
 	nn := r.Range(1, 3)
@@ -277,6 +330,9 @@ func GenSpec(r *vh.Rng) Spec {
 			kinds = append(kinds, k)
 		}
 	}
+	if r.Chance(1, 5) {
+		kinds = append(kinds, KDrf)
+	}
 	// at most one queue plugin
 	qplug := vh.Pick(r, []int64{0, KProp, KProp, KProp, KCap, KCap, KCap})
 	if qplug != 0 {
@@ -402,8 +458,8 @@ func GenVote(r *vh.Rng, spec Spec) ([]int64, map[string]any, bool) {
 		cands[i], cands[j] = cands[j], cands[i]
 	}
 	reclaim := r.Chance(1, 2)
-	if reclaim {
-		// proportion's reclaimableFn subtracts every candidate from its queue's allocated amount
+	if true {
+		// proportion's reclaimableFn (and drf's preemptableFn) subtracts every candidate from its queue's allocated amount
 		// (Resource.Sub asserts): like the action, hand it tasks that hold resources only
 		keep := cands[:0]
 		st := map[int64]int64{}
